@@ -171,6 +171,7 @@ fn main() {
     if let Some(r) = ctx.replay_request() {
         let d = r["detail"].clone();
         let sig = r["signature"].as_str().unwrap_or("").to_string();
+        crate::model::POOL_MODE.store(d["pool_mode"].as_u64().unwrap_or(0) as u8, std::sync::atomic::Ordering::Relaxed);
         let mut rp = Replayer { detail: &d, result: None };
         for_each_entry(&mut rp);
         match rp.result {
@@ -247,6 +248,23 @@ fn main() {
     for (sig, (legname, detail)) in acc.violations {
         ctx.violation(&legname, &sig, detail);
     }
+    // ---- a second, smaller pass over every codec with payloads made of multi-byte characters:
+    // a read boundary may fall inside a character
+    crate::model::POOL_MODE.store(1, std::sync::atomic::Ordering::Relaxed);
+    let p2 = Params { tier: p.tier, seq_narrow: 2, seq_wide: 1, extra_level: false, two_cut_limit: if ctx.quick() { 64 } else { 160 }, three_cut_limit: 0, corrupt_seq: 0, corrupt_one_cuts: false, trunc_seq: 0, recover_seq_narrow: 0, recover_seq_wide: 0, threads, cap_s: if ctx.quick() { 60.0 } else { 600.0 } };
+    let only2 = std::env::var("C10_ONLY").ok();
+    let mut runner2 = Runner { p: &p2, acc: Acc::new(), only: only2, count: 0 };
+    for_each_entry(&mut runner2);
+    let Runner { acc: acc2, count: count2, .. } = runner2;
+    let mut b = json!({"codec_pairs": count2, "tier": p2.tier, "payloads": "Recon texts with blanks made of 2, 3 and 4 byte UTF-8 characters (and the same bytes raw)"});
+    b["sequence_length_narrow_enums"] = json!(p2.seq_narrow);
+    b["sequence_length_wide_enums"] = json!(p2.seq_wide);
+    b["cuts"] = json!(format!("0, every 1-cut, every 2-cut for streams <= {} bytes, byte-by-byte", p2.two_cut_limit));
+    leg(&ctx, "fragmentation_utf8", &acc2.frag, "case = (message sequence, chunking); non-trivial = the decoder returned None while part of a frame was pending", b);
+    for (sig, (_legname, detail)) in acc2.violations {
+        ctx.violation("fragmentation_utf8", &format!("{} pool=utf8", sig), detail);
+    }
+    crate::model::POOL_MODE.store(0, std::sync::atomic::Ordering::Relaxed);
     ctx.assume("payload pool: Recon {empty, 1 byte, 3 bytes with valid prefixes, quoted text with escapes}; raw {empty, a byte equal to a tag, 3 non-UTF-8 bytes, the quoted text}; uuids {0, MAX}; other payloads are not enumerated");
     ctx.assume("typed decoders are instantiated at swimos_model::Value (key and value); other Recognizer types are not enumerated");
     ctx.assume("corruption is a single substituted byte in a tag or length field; multi-byte corruption is not enumerated");
